@@ -90,25 +90,50 @@ Definition saved_check (before : list event) (cfg : config) : bool :=
           (updated_tags before).
 
 (* restored = what a dastard started after the save reports as restored, by configuration key; demanded
-   only when the last thing that happened to the configuration was a save (no update since) *)
+   only when the last thing that happened to the configuration was a save (no update of a persistent topic since) *)
 Definition restorable_topic (t : string) : bool := mem_str (to_lower t) restorable_keys.
 Fixpoint saved_is_current_rev (r : list event) : bool :=
   match r with
   | [] => false
   | SaveTick _ faults :: _ => forallb negb faults
-  | Update _ _ _ :: _ => false
+  | Update t _ _ :: r' => if persistent_topic t then false else saved_is_current_rev r'
   | _ :: r' => saved_is_current_rev r'
   end.
 Definition saved_is_current (before : list event) : bool := saved_is_current_rev (rev before).
+(* what the RPC layer has put into effect (latest InUse per key, until a later message of that topic): "reading it back yields the same ...
+   output base path" means the one in use, whatever messages were published about it *)
+Fixpoint in_use (h : list event) (acc : list (string * value)) : list (string * value) :=
+  match h with
+  | [] => acc
+  | InUse k v :: r => in_use r (sset k v acc)
+  | Update t _ _ :: r => in_use r (remove String.eqb (to_lower t) acc)   (* a later message of that topic supersedes it *)
+  | _ :: r => in_use r acc
+  end.
 Definition restored_spec (before : list event) (l : list (string * value)) : Prop :=
   saved_is_current before = true ->
-  forall t o, persistent_topic t = true -> restorable_topic t = true -> last_obj t before = Some o ->
-              slookup (to_lower t) l = Some o.
+  (forall t o, persistent_topic t = true -> restorable_topic t = true -> last_obj t before = Some o ->
+               slookup (to_lower t) l = Some o) /\
+  (forall k v, In (k, v) (in_use before []) -> slookup k l = Some v).
 Definition restored_check (before : list event) (l : list (string * value)) : bool :=
   negb (saved_is_current before)
-  || forallb (fun t => negb (persistent_topic t && restorable_topic t)
-                       || opt_str_eqb (slookup (to_lower t) l) (last_obj t before))
-             (updated_tags before).
+  || (forallb (fun t => negb (persistent_topic t && restorable_topic t)
+                        || opt_str_eqb (slookup (to_lower t) l) (last_obj t before))
+              (updated_tags before)
+      && forallb (fun kv => opt_str_eqb (slookup (fst kv) l) (Some (snd kv))) (in_use before [])).
+
+(* keys the start-up of this run read from the file (cfg0) and that no persistent topic of this run maps to
+   keep their value in the saved file: the latest value of a topic last published in an earlier run is the
+   stored one *)
+Definition touches (t k : string) : bool :=
+  String.eqb (to_lower t) k && negb (mem_str (to_lower t) volatile_topics).
+Definition written_tags (before : list event) : list string :=
+  updated_tags before ++ ["CURRENTTIME"; "___1"; "___2"]%string.
+Definition kept_spec (cfg0 : config) (before : list event) (cfg : config) : Prop :=
+  forall k v, In (k, v) cfg0 -> (forall t, In t (written_tags before) -> touches t k = false) ->
+              slookup k cfg = Some v.
+Definition kept_check (cfg0 : config) (before : list event) (cfg : config) : bool :=
+  forallb (fun kv => existsb (fun t => touches t (fst kv)) (written_tags before)
+                     || opt_str_eqb (slookup (fst kv) cfg) (Some (snd kv))) cfg0.
 
 (* a save is due: some persistent topic got a new value since the last save (the file on disk no longer
    "contains the latest value of every persistent topic" until the delayed save has run) *)
@@ -160,7 +185,7 @@ Definition completed (faults : list bool) (trace : list (fs entry)) : bool :=
   forallb negb faults && (length trace =? 6)%nat.
 
 (* ---- the whole history ---- *)
-Definition check_one (before : list event) (e : event) (o : out) : bool :=
+Definition check_one (cfg0 : config) (before : list event) (e : event) (o : out) : bool :=
   match e, o with
   | SendAll, Published l => sendall_check before l
   | SaveTick _ faults, Saved trace reads =>
@@ -170,7 +195,7 @@ Definition check_one (before : list event) (e : event) (o : out) : bool :=
           && (if forallb negb faults          (* no operation failed: the save must have run to its end *)
               then completed faults trace
                    && match last reads None with
-                      | Some cfg => saved_check before cfg
+                      | Some cfg => saved_check before cfg && kept_check cfg0 before cfg
                       | None => false
                       end
               else true)
@@ -184,17 +209,19 @@ Definition check_one (before : list event) (e : event) (o : out) : bool :=
       end
   | Restart, Restored l => restored_check before l
   | Update _ _ _, Published _ => true
+  | InUse _ _, Published _ => true
   | Wait, Waited b => wait_check before b
   | _, _ => false
   end.
 
-Fixpoint check_from (before : list event) (h : list (event * out)) : bool :=
+Fixpoint check_from (cfg0 : config) (before : list event) (h : list (event * out)) : bool :=
   match h with
   | [] => true
-  | (e, o) :: rest => check_one before e o && check_from (before ++ [e]) rest
+  | (e, o) :: rest => check_one cfg0 before e o && check_from cfg0 (before ++ [e]) rest
   end.
 
-Definition C16_check (h : list (event * out)) : bool := check_from [] h.
+(* cfg0 = what the start-up of this run read from the configuration file *)
+Definition C16_check (cfg0 : config) (h : list (event * out)) : bool := check_from cfg0 [] h.
 
 (* ---- well-formed histories (hypotheses of the theorems, each justified in design.d/C16.md) ---- *)
 (* a JSON text is never empty *)
